@@ -98,8 +98,8 @@ PROPS = {
              'distinct = distinct case text; non-trivial = outcome is not a plain 404',
         trusted_base=TB_ROUTING,
         assumptions=['service orders that trip the net/http mux panic (finding of C11) are not used'],
-        explanation='Theorems Props.C03_best_service / C03_literal_beats_variable / C03_longer_root_beats_prefix and the '
-                    'refutation C03_refuted_score_tie; metamorphic comparison of the implementation across permuted builds '
+        explanation='Theorems Props.C03_best_service / C03_literal_beats_variable / C03_longer_root_beats_prefix / '
+                    'C03_curly_route / C03_jsr_route and the refutation C03_refuted_score_tie; metamorphic comparison of the implementation across permuted builds '
                     'plus the dominance predicate S.best_match_ok on every invoked route.',
     ),
     'C18': dict(
@@ -114,7 +114,7 @@ PROPS = {
         trusted_base=TB_ROUTING,
         assumptions=[],
         explanation='The full statement is refuted in Coq (C18_refuted_ranking, C18_refuted_empty_segment; known findings '
-                    'K-C18-1/2); agreement is checked on the implementation for every generated case and anything outside the '
+                    'K-C18-1/2); the positive half is proved (C18_agree, premises evaluated per case); agreement is checked on the implementation for every generated case and anything outside the '
                     'two finding classes is a violation; the model of each router is compared with the implementation.',
     ),
     'C09': dict(
